@@ -178,8 +178,12 @@ func (r *repository) removeRulesFrom(tree *radixtree.Tree[rule.Route], tbdRules 
 		for _, route := range rul.Routes() {
 			if err := tree.Delete(
 				route.Path(),
-				radixtree.ValueMatcherFunc[rule.Route](func(route rule.Route) bool {
-					return route.Rule().SameAs(rul)
+				// remove exactly this route: a rule may define multiple routes for the
+				// same path expression (e.g. differing in path_params only). Matching by
+				// rule would drop all of them at once and let the removal of the next
+				// one, and by that the update or deletion of the entire rule set, fail.
+				radixtree.ValueMatcherFunc[rule.Route](func(existing rule.Route) bool {
+					return existing == route
 				}),
 			); err != nil {
 				return errorchain.NewWithMessagef(heimdall.ErrInternal, "failed deleting rule ID='%s'", rul.ID()).
